@@ -121,7 +121,8 @@ Definition flush_line (o : options) (st : jstate) : jstate :=
       let add := negb (j_had st) && negb (j_had_label st) && (j_prev st =? 0) in
       (line, j_had st, (if add then S (j_prev st) else j_prev st), add, j_had_label st)
     else
-      let hl := j_has_label st && negb (j_has_code st) in
+      (* a line of labels (and comments) without code; a line of comments behind such a line still belongs to the label *)
+      let hl := (j_has_label st || j_had_label st) && negb (j_has_code st) in
       if col <? byte_len line then
         let '(label_code, comment) := split_floor line col in
         if all_ws label_code then (pad_right [] lm ++ comment, true, 0, true, hl)
@@ -170,8 +171,23 @@ Definition next_is_nl (rest : list chunk) : bool :=
   match rest with [] => true | n :: _ => is_nl_chunk n end.
 Definition is_last (rest : list chunk) : bool := match rest with [] => true | _ => false end.
 
+(* str.trim_start_matches(|c| c == ' ' || c == '\t') *)
+Fixpoint trim_blanks (s : text) : text :=
+  match s with
+  | c :: r => if ((c =? 32) || (c =? 9))%N then trim_blanks r else s
+  | [] => []
+  end.
+
+(* the pieces of a chunk: `chunk.str.split_inclusive('\n')`; the lines of a block comment after its first one lose the
+   blanks they start with (they are placed like the first line; keeping the blanks would shift them on every run) *)
+Definition chunk_pieces (c : chunk) : list text :=
+  match split_inclusive (c_str c) with
+  | [] => []
+  | p :: rest => p :: match c_ty c with Some Comment => map trim_blanks rest | _ => rest end
+  end.
+
 Definition join_chunk (o : options) (c : chunk) (is_eol last : bool) (st : jstate) : jstate :=
-  fold_left (join_piece o (c_ty c) is_eol last) (split_inclusive (c_str c)) (set_indent st (c_indent c)).
+  fold_left (join_piece o (c_ty c) is_eol last) (chunk_pieces c) (set_indent st (c_indent c)).
 
 Fixpoint join_loop (o : options) (cs : list chunk) (st : jstate) : jstate :=
   match cs with
